@@ -3,7 +3,7 @@ import re
 
 from cfg import cfg_of
 from expr import Exprs, fmt, walk, contains, strip_tags
-from mirutil import is_call, dominating_conds, cond_bool, for_loops, effect_profile, profile_diff, erase_vars
+from mirutil import is_call, dominating_conds, cond_bool, for_loops, effect_profile, profile_diff, erase_vars, local_updates
 from framework import site_of
 import callgraph as cgmod
 import pipeline
@@ -63,6 +63,54 @@ def run(F, rep):
                 rep.ob("C11-P1", "%s reads the k-mer value through data()/data_canonical()" % f.key.split("::", 1)[-1], False, detail=t["callee"], site=site_of(f, t),
                        key="C11-P1 | %s | strand-specific read" % f.key)
     rep.floor("C11-P1", nk, 8, "Kmer::new sites in selection / enumeration / segmentation / compressor")
+    # P7: strand symmetry and agreement of the variants presuppose that the canonical value of a window is exact: C20-K5/K6/K1
+    from rules import c20
+    sub = type(rep)(rep.pid, rep.tier)
+    sub.cfg = getattr(rep, "cfg", "dev")
+    c20.run(F, sub)
+    n7 = 0
+    for o in sub.obligations:
+        if o["rule"] in ("C20-K5", "C20-K6", "C20-K1"):
+            n7 += 1
+            rep.ob("C11-P7", o["instance"], o["ok"], detail=o["detail"], site=o["site"], how=o["how"], key=o["key"].replace(o["rule"], "C11-P7/" + o["rule"][4:]))
+    rep.floor("C11-P7", n7, 8, "k-mer window clauses shared with C20")
+
+    # ------------------------------------------------------------ P8: no sentinel k-mer in a compare-with-predecessor scan
+    # Every u64 is a legal k-mer value (0 is poly-A, u64::MAX is poly-T at k = 32), so a scan over sorted k-mers that
+    # compares each element with the previous one must not start `previous` at an integer constant: the first element
+    # equal to that constant would be taken for a repeat.  (Index-based scans and Option-typed predecessors are fine.)
+    np8 = 0
+    for f in F.funcs.values():
+        if not re.search(r"^ragc_core::(splitters|kmer_extract)::", f.key) or f.kind == "promoted" or f.d.get("test"):
+            continue
+        exf = Exprs(f)
+        loops = for_loops(f, exf)
+        if not loops:
+            continue
+        ups = local_updates(f, exf)
+        for L in loops:
+            item_vars = set()
+            for nm, bi, e, er in ups:
+                # `prev = item` inside the loop: the assigned value is the loop's element
+                if bi in L["body"] and f.locals[_local_of(f, nm)]["ty"] == "u64" and contains(e, lambda x: isinstance(x, tuple) and x[0] == "call" and x[1].endswith("Iterator>::next")):
+                    item_vars.add(nm)
+            for nm in sorted(item_vars):
+                compared = False
+                for b in L["body"]:
+                    t = f.blocks[b]["term"]
+                    if t["k"] == "switch":
+                        ce = exf.operand(t["discr"])
+                        if isinstance(ce, tuple) and ce[0] == "bin" and ce[1] in ("Eq", "Ne") and ("var", nm) in (ce[2], ce[3]):
+                            compared = True
+                if not compared:
+                    continue
+                np8 += 1
+                inits = [e for n2, bi, e, er in ups if n2 == nm and bi not in L["body"]]
+                bad = [e for e in inits if isinstance(e, tuple) and e[0] == "const" and isinstance(e[1], int)]
+                rep.ob("C11-P8", "%s: the predecessor `%s` of a compare-with-previous scan over k-mers does not start at a sentinel k-mer value" % (f.key.split("::", 1)[-1], nm),
+                       not bad, detail="initial value %s is itself a legal k-mer: a first element equal to it counts as a repeat" % [fmt(e) for e in bad] if bad else "initial values: %s" % [fmt(e)[:40] for e in inits],
+                       site=L["site"], key="C11-P8 | %s | sentinel predecessor" % f.key)
+    rep.stat("compare_with_previous_scans", np8)
 
     # ------------------------------------------------------------ P2
     ns = 0
@@ -258,3 +306,10 @@ def run(F, rep):
         if f:
             ret = f.d.get("sig", "").split("->")[-1]
             rep.ob("C11-P5", "%s returns sets" % n, "AHashSet<u64>" in ret and "Vec<u64>" not in ret, detail=ret.strip()[:120], how="trivial", key="C11-P5 | %s" % n)
+
+
+def _local_of(f, name):
+    for l, n in f.local_names().items():
+        if n == name:
+            return l
+    return 0
